@@ -13,7 +13,7 @@ EXPLANATION = (
     "and the renamed variables in place. Term level: GeneralTerm / IntegerTerm / SymbolicTerm::substitute replace a variable only if name and sort "
     "agree and recurse through every operator; Atom and Comparison substitute in every term and guard (COLLECT). SITES: the seven call sites of "
     "Formula::substitute pass a sort-compatible term (table with the origin of each argument), which discharges the two documented panics of "
-    "GeneralTerm::substitute. Variable::sequence yields prefix-name + index with the prefix's sort, for all indices.")
+    "GeneralTerm::substitute. Variable::sequence yields prefix-name + index with the prefix's sort, for all indices. IDENT: a variable is a set element by name and sort (derived equality).")
 UNDECIDED = ["the semantic substitution lemma (logic textbook)", "sufficiency of the candidate test for arbitrarily nested binders beyond the conditions checked"]
 ASSUMPTIONS = ["free_variables / variables collectors are complete (checked by COLLECT here)"]
 
